@@ -36,7 +36,8 @@ EXPLANATION = (
     "or index its container by bound_2 - bound_1. (R5) same query methods in all four classes and their return expressions. "
     "(R6) ARRAY.__getitem__ raises for None unless self._optional. "
     "(R5/R6 are decided semantically: return expressions as linear forms over bound_1, bound_2, len(container); the unset-element guard executed for OPTIONAL x {unset, set-but-false, set}.) (R7) Type.get_type (BaseType.py) resolves a name in vars(self._scope), and a table of resolved types is keyed by every attribute of self that the look-up reads. (R9) in every method of the four classes no raise is reached after a statement that has already changed self._container on the same path: a refused operation leaves the aggregate unchanged. (R8) check_type (TypeChecker.py), the only filter in front of every store, refuses None for every expected type: explored path by path with instance := None (isinstance(None, X) false, None in ids false, attribute access raises), no path returns True. Not decided: agreement of sizes, indices and uniqueness with a reference model over operation histories — that quantifies "
-    "over run-time sequences; these rules show that each single operation is guarded the way EXPRESS requires.")
+    "over run-time sequences; these rules show that each single operation is guarded the way EXPRESS requires."
+    " (R10) whether a bound is absent is decided by identity with None, never by truth value (0 is a legal bound): no bound is used as a truth value and `_unbounded` is a Boolean constant or an `is None` test.")
 
 PKG = "/repo/src/exp2python/python/stepcode"
 FILE = "AggregationDataTypes.py"
@@ -327,6 +328,54 @@ def r8_none_rejected_by_filter(res):
     res.info["r8_paths_of_check_type"] = npaths[0]
 
 
+def r10_bound_absence_by_identity(res, tree):
+    """An upper bound may be absent (`?`, passed as None) or any integer >= 0 - and 0 is an integer: `LIST [0:0]`.  Whether a bound is
+    absent must therefore be decided by identity with None, never by truth value.  Every use of a bound (`bound_1`, `bound_2`,
+    `self._bound_1`, `self._bound_2`) as a truth value (`not b`, `if b`, `b and ..`, `bool(b)`, `x if b else y`) is refused, and every
+    value stored in `self._unbounded` is a Boolean constant or an `is None` / `is not None` comparison of a bound."""
+    def is_bound(n):
+        return (isinstance(n, ast.Name) and n.id in ("bound_1", "bound_2")) or \
+               (isinstance(n, ast.Attribute) and n.attr in ("_bound_1", "_bound_2"))
+    n = 0
+    for cls in [c for c in tree.body if isinstance(c, ast.ClassDef) and c.name in CLASSES]:
+        for fn in [m for m in cls.body if isinstance(m, ast.FunctionDef)]:
+            truth = []
+            for x in ast.walk(fn):
+                if isinstance(x, ast.UnaryOp) and isinstance(x.op, ast.Not):
+                    truth.append(x.operand)
+                elif isinstance(x, (ast.If, ast.While, ast.IfExp)):
+                    truth.append(x.test)
+                elif isinstance(x, ast.BoolOp):
+                    truth.extend(x.values)
+                elif isinstance(x, ast.Assert):
+                    truth.append(x.test)
+                elif isinstance(x, ast.Call) and isinstance(x.func, ast.Name) and x.func.id == "bool":
+                    truth.extend(x.args)
+            for t in truth:
+                if is_bound(t):
+                    n += 1
+                    res.add("R10.bound_absence_by_identity", "R10|%s|%s.%s|truth:%s" % (REL, cls.name, fn.name, src(t)), "%s:%d" % (REL, t.lineno), False,
+                            "`%s` is used as a truth value in %s.%s: the bound 0 (`%s [0:0]`, `[0:?]`) is taken for an absent bound, so the "
+                            "container accepts or refuses elements against the wrong limit" % (src(t), cls.name, fn.name, cls.name))
+            for x in ast.walk(fn):
+                if isinstance(x, ast.Compare) and len(x.ops) == 1 and isinstance(x.ops[0], (ast.Is, ast.IsNot)) and is_bound(x.left) and \
+                        isinstance(x.comparators[0], ast.Constant) and x.comparators[0].value is None:
+                    n += 1
+                    res.add("R10.bound_absence_by_identity", "R10|%s|%s.%s|%s@%d" % (REL, cls.name, fn.name, src(x), x.lineno), "%s:%d" % (REL, x.lineno), True,
+                            "absence of the bound is decided by identity with None")
+                if isinstance(x, ast.Assign) and any(isinstance(t, ast.Attribute) and t.attr == "_unbounded" for t in x.targets):
+                    v = x.value
+                    ok = (isinstance(v, ast.Constant) and isinstance(v.value, bool)) or \
+                         (isinstance(v, ast.Compare) and len(v.ops) == 1 and isinstance(v.ops[0], (ast.Is, ast.IsNot)) and is_bound(v.left) and
+                          isinstance(v.comparators[0], ast.Constant) and v.comparators[0].value is None)
+                    n += 1
+                    res.add("R10.bound_absence_by_identity", "R10|%s|%s.%s|_unbounded@%d" % (REL, cls.name, fn.name, x.lineno), "%s:%d" % (REL, x.lineno), ok,
+                            "`%s` stores a Boolean constant or an identity test of the bound" % src(x) if ok else
+                            "`%s`: whether the aggregate is unbounded is computed from something other than `bound is None`; with a truth "
+                            "value the bound 0 counts as no bound" % src(x))
+    res.floor("R10.bound_absence_by_identity", "absence tests of a bound and stores into _unbounded", n, 6)
+
+
 def run(prog, res, tier):
     r8_none_rejected_by_filter(res)
     r7_base_type_resolution(res)
@@ -344,6 +393,7 @@ def run(prog, res, tier):
         return
     methods = {c: {m.name: m for m in classes[c].body if isinstance(m, ast.FunctionDef)} for c in CLASSES}
     r9_refusal_before_mutation(res, classes, methods)
+    r10_bound_absence_by_identity(res, tree)
     n_store = 0
     keyn = {}
 
